@@ -295,6 +295,27 @@ def dims_for(t: dict) -> Lattice:
     return Lattice(d, groups)
 
 
+#: dimensions that feed independent bits / fields of the IVT flag word, with the one non-default value
+#: used in the *flag product* (full product of {default, this value} over the dimensions a class has)
+FLAG_DIMS = {"hwkey": True, "keystore": "full", "reloc": "2x1,5", "imgver": 1, "subtype": "nbu",
+             "tz": "custom-bin"}
+#: small groups whose complete product is explored in every tier (key store x relocation table)
+SMALL_GROUPS = [("keystore", "reloc")]
+
+
+def flag_product(t: dict) -> list:
+    """Option sets (>= 2 departures; the single ones are in the k <= 1 lattice) of the flag product."""
+    import itertools
+
+    names = {d.name for d in dims_for(t).dims}
+    dims = [n for n in FLAG_DIMS if n in names and not (n == "tz" and not tz_spec(t["fam"], t["rev"]))]
+    out = []
+    for r in range(2, len(dims) + 1):
+        for combo in itertools.combinations(dims, r):
+            out.append({n: FLAG_DIMS[n] for n in combo})
+    return out
+
+
 # ---------------------------------------------------------------------------------------------
 # configuration builder
 
@@ -707,6 +728,15 @@ def execute(case: dict, wd: str, seed: int, want: tuple = ("parse", "reexport", 
             ob["parse_error"] = _exc(e)
             ob["parse_error"]["spsdk"] = isinstance(e, SPSDKError)
             return ob
+        # ---- the other mode of the optional `dek` argument: an image that is not encrypted has to parse
+        # to the same members whether or not a key is handed over (given <-> not given)
+        if case["auth"] != "encrypted" and exp["facts"]["kind"] == "ivt":
+            dek2 = None if dek else hmac_key("A", seed).hex()
+            ob["parse2_mode"] = "no-dek" if dek else "dek-given"
+            try:
+                ob["parsed2"] = snapshot(MasterBootImage.parse(fam, ob["image"], dek=dek2, revision=rev))
+            except Exception as e:  # noqa
+                ob["parse2_error"] = _exc(e)
         # ---- a wrong parse result is reported by its own clause; the re-export clauses are then
         # evaluated on the object with that one value put right (DESIGN §1.7: a known finding must
         # not make the dependent clauses meaningless)
